@@ -74,6 +74,8 @@ type metricIndexDatabase struct {
 
 	lock     sync.RWMutex
 	flushing atomic.Bool
+	// flushFailed: the last flush failed, the stores keep what it had frozen
+	flushFailed atomic.Bool
 }
 
 // NewMetricIndexDatabase creates an metric index store.
@@ -200,21 +202,38 @@ func (index *metricIndexDatabase) Flush() error {
 		defer func() {
 			index.flushing.Store(false)
 		}()
-		if err := index.metricInverted.flush(); err != nil {
+		retry := index.flushFailed.Load()
+		if err := index.flushStores(); err != nil {
+			index.flushFailed.Store(true)
 			return err
 		}
-		if err := index.forward.flush(); err != nil {
-			return err
-		}
-		if err := index.inverted.flush(); err != nil {
-			return err
-		}
-		if err := index.series.Flush(); err != nil {
-			return err
+		if retry {
+			// the last flush failed: its frozen stores were still there, PrepareFlush did not freeze again and
+			// the stores above have only written that old part. What has been indexed since is still mutable,
+			// but the caller goes on to persist the family data (and the log sequence) of those series:
+			// freeze and write it now.
+			index.PrepareFlush()
+			if err := index.flushStores(); err != nil {
+				return err
+			}
+			index.flushFailed.Store(false)
 		}
 	}
 	// TODO: add wait?
 	return nil
+}
+
+func (index *metricIndexDatabase) flushStores() error {
+	if err := index.metricInverted.flush(); err != nil {
+		return err
+	}
+	if err := index.forward.flush(); err != nil {
+		return err
+	}
+	if err := index.inverted.flush(); err != nil {
+		return err
+	}
+	return index.series.Flush()
 }
 
 func (index *metricIndexDatabase) Close() error {
